@@ -12,7 +12,7 @@ REPO_SRCS := $(wildcard $(REPO)/src/*.cpp) $(wildcard $(REPO)/src/*/*.cpp)
 REPO_OBJS := $(patsubst $(REPO)/src/%.cpp,$(B)/repo/%.o,$(REPO_SRCS))
 SIM_SRCS := $(wildcard sim/*.cpp)
 SIM_OBJS := $(patsubst sim/%.cpp,$(B)/sim/%.o,$(SIM_SRCS)) $(B)/sim/switch.o
-HARNESSES := $(patsubst harness/%.cpp,%,$(wildcard harness/c*.cpp))
+HARNESSES := $(patsubst harness/%.cpp,%,$(wildcard harness/*.cpp))
 
 .PHONY: all clean setup
 all: $(addprefix $(B)/,$(HARNESSES))
